@@ -259,6 +259,79 @@ func DropNilPhi(s string) string {
 	return s
 }
 
+// FlattenPhi: in a rendered term, nested alternatives are merged, duplicates dropped and the alternatives sorted:
+// phi(a|phi(nil|phi(b|nil))) and phi(a|phi(b|nil)) both read phi(a|b|nil) (which variable a value passed through on
+// its way is not part of what it can be).
+func FlattenPhi(s string) string {
+	var rec func(s string) string
+	splitTop := func(body string, sep byte) []string {
+		var parts []string
+		d, st := 0, 0
+		for q := 0; q <= len(body); q++ {
+			if q == len(body) || (body[q] == sep && d == 0) {
+				parts = append(parts, body[st:q])
+				st = q + 1
+				continue
+			}
+			if body[q] == '(' || body[q] == '[' || body[q] == '{' {
+				d++
+			} else if body[q] == ')' || body[q] == ']' || body[q] == '}' {
+				d--
+			}
+		}
+		return parts
+	}
+	rec = func(s string) string {
+		var out strings.Builder
+		for i := 0; i < len(s); {
+			if !strings.HasPrefix(s[i:], "phi(") || (i > 0 && (s[i-1] == '_' || s[i-1] >= 'a' && s[i-1] <= 'z' || s[i-1] >= 'A' && s[i-1] <= 'Z')) {
+				out.WriteByte(s[i])
+				i++
+				continue
+			}
+			depth, j := 0, i+3
+			for ; j < len(s); j++ {
+				if s[j] == '(' || s[j] == '[' || s[j] == '{' {
+					depth++
+				} else if s[j] == ')' || s[j] == ']' || s[j] == '}' {
+					depth--
+					if depth == 0 {
+						break
+					}
+				}
+			}
+			if j >= len(s) {
+				out.WriteString(s[i:])
+				break
+			}
+			var alts []string
+			seen := map[string]bool{}
+			for _, pt := range splitTop(s[i+4:j], '|') {
+				pt = rec(pt)
+				sub := []string{pt}
+				if strings.HasPrefix(pt, "phi(") && strings.HasSuffix(pt, ")") && len(splitTop(pt, '|')) == 1 {
+					sub = splitTop(pt[4:len(pt)-1], '|')
+				}
+				for _, a := range sub {
+					if !seen[a] {
+						seen[a] = true
+						alts = append(alts, a)
+					}
+				}
+			}
+			sort.Strings(alts)
+			if len(alts) == 1 {
+				out.WriteString(alts[0])
+			} else {
+				out.WriteString("phi(" + strings.Join(alts, "|") + ")")
+			}
+			i = j + 1
+		}
+		return out.String()
+	}
+	return rec(s)
+}
+
 // Resolver computes terms for the values of one function.
 type Resolver struct {
 	P     *prog.Program
